@@ -160,6 +160,33 @@ def q_reflections(c, A, ctx):
     return c.unique_reflections()
 
 
+def q_sfac(c, A, ctx):
+    return c.structure_factors()
+
+
+def q_powder(c, A, ctx):
+    return c.powder_pattern()
+
+
+def q_void(c, A, ctx):
+    return c.void_surface(separation=1.0)
+
+
+def q_scene(c, A, ctx):
+    return c.mesh_scene()
+
+
+def q_nn_info(c, A, ctx):
+    pts = np.array([[0.0, 0.0, 0.0], [1.0, 2.0, 3.0], [-2.0, 0.5, 4.0]])
+    info, idx = c.nearest_neighbour_info(pts, radius=min(A["r"], 3.8))
+    return [[list(n) for n in info], idx]
+
+
+def q_mol_sd(c, A, ctx):
+    mols = c.symmetry_unique_molecules()
+    return c.molecule_shape_descriptors(mols[A["mol_i"] % len(mols)], l_max=2, radius=A["r"])
+
+
 # name -> (function, role) ; role: P = populates memos, C = consumes memos,
 # N = memo free (control group), X = export
 QUERIES = {
@@ -196,6 +223,13 @@ SLOW_QUERIES = {
     "shape": (q_shape, "C"),
     "shell": (q_shell, "C"),
     "dimers": (q_dimers, "C"),
+    "reflections": (q_reflections, "N"),
+    "sfac": (q_sfac, "C"),
+    "powder": (q_powder, "C"),
+    "void": (q_void, "C"),
+    "scene": (q_scene, "C"),
+    "nn_info": (q_nn_info, "C"),
+    "mol_sd": (q_mol_sd, "C"),
 }
 ALL_QUERIES = dict(QUERIES)
 ALL_QUERIES.update(SLOW_QUERIES)
@@ -256,7 +290,22 @@ def fork_pickle(c):
     return pickle.loads(blob)
 
 
+def derive_P1(c):
+    # a crystal derived from this one and then used on its own
+    return c.as_P1()
+
+
+def derive_cif(c):
+    return Crystal.from_cif_string(c.to_cif_string())
+
+
+def derive_res(c):
+    return Crystal.from_shelx_string(c.to_shelx_string(), titl=c.titl)
+
+
 FORKS = {"deepcopy": fork_deepcopy, "pickle": fork_pickle}
+# derived handles: new crystals computed from a handle (different state allowed)
+DERIVES = {"derive_P1": derive_P1, "derive_cif": derive_cif, "derive_res": derive_res}
 
 WRITE_FAULT_TARGETS = {"cif": "f.cif", "res": "f.res", "poscar": "POSCAR"}
 
@@ -275,7 +324,8 @@ def classify_api():
         "from_shelx_file", "from_shelx_string", "from_vasp_file", "from_vasp_string",
         "choose_trigonal_lattice", "normalize_hydrogen_bondlengths",
         "molecular_shape_descriptors", "molecular_shell", "symmetry_unique_dimers",
-        "to_cartesian", "to_fractional",
+        "to_cartesian", "to_fractional", "unique_reflections", "structure_factors", "powder_pattern",
+        "void_surface", "mesh_scene", "nearest_neighbour_info", "molecule_shape_descriptors",
     }  # fmt: skip
     out = []
     for name in sorted(dir(Crystal)):
